@@ -88,6 +88,33 @@ MUTANTS = [
      "                data = self._send_queue.pop(0)\n            finally:\n                self._sendlock.release()\n            self._channel.send(data)"),
     ("c12-seq-nonatomic", "C12", "rpyc/core/protocol.py",
      "        return next(self._seqcounter)", "        n = getattr(self, '_sq', 0)\n        self._sq = n + 1\n        return n"),
+    # ---- C13
+    ("c13-no-notify", "C13", "rpyc/core/protocol.py",
+     "            with self._recv_event:\n                self._recv_event.notify_all()\n", "            pass\n"),
+    ("c13-seq-nonatomic", "C13", "rpyc/core/protocol.py",
+     "        return next(self._seqcounter)", "        n = getattr(self, '_sq', 0)\n        self._sq = n + 1\n        return n"),
+    ("c13-ready-before-obj", "C13", "rpyc/core/async_.py",
+     "        self._is_exc = is_exc\n        self._obj = obj\n        self._is_ready = True", "        self._is_ready = True\n        self._is_exc = is_exc\n        self._obj = obj"),
+    ("c13-dispatch-under-lock", "C13", "rpyc/core/protocol.py",
+     "            if not data:\n                return False\n        except EOFError:\n            self.close()\n            raise\n        finally:\n            self._recvlock.release()\n            with self._recv_event:\n                self._recv_event.notify_all()\n        self._dispatch(data)\n        return True",
+     "            if not data:\n                return False\n            self._dispatch(data)\n            return True\n        except EOFError:\n            self.close()\n            raise\n        finally:\n            self._recvlock.release()\n            with self._recv_event:\n                self._recv_event.notify_all()"),
+    ("c13-callback-registered-late", "C13", "rpyc/core/protocol.py",
+     "        self._request_callbacks[seq] = callback\n        try:\n            self._send(consts.MSG_REQUEST, seq, (handler, self._box(args)))",
+     "        try:\n            self._send(consts.MSG_REQUEST, seq, (handler, self._box(args)))\n            self._request_callbacks[seq] = callback"),
+    ("c13-no-recvlock", "C13", "rpyc/core/protocol.py",
+     "            if not self._recvlock.acquire(False):\n                return wait_for_lock and self._recv_event.wait(timeout.timeleft())",
+     "            self._recvlock.acquire(False)"),
+    # ---- C14 (and C13 liveness)
+    ("c14-no-notify", "C14", "rpyc/core/protocol.py",
+     "            with self._recv_event:\n                self._recv_event.notify_all()\n", "            pass\n"),
+    ("c14-wait-ignores-ready", "C14", "rpyc/core/async_.py",
+     "        while not self._is_ready and not self._ttl.expired():", "        while not self._ttl.expired():"),
+    ("c14-dispatch-under-lock", "C14", "rpyc/core/protocol.py",
+     "            if not data:\n                return False\n        except EOFError:\n            self.close()\n            raise\n        finally:\n            self._recvlock.release()\n            with self._recv_event:\n                self._recv_event.notify_all()\n        self._dispatch(data)\n        return True",
+     "            if not data:\n                return False\n            self._dispatch(data)\n            return True\n        except EOFError:\n            self.close()\n            raise\n        finally:\n            self._recvlock.release()\n            with self._recv_event:\n                self._recv_event.notify_all()"),
+    ("c14-cond-wait-full-timeout", "C14", "rpyc/core/protocol.py",
+     "                return wait_for_lock and self._recv_event.wait(timeout.timeleft())",
+     "                time.sleep(timeout.timeleft() or 0)\n                return False"),
     # ---- C15
     ("c15-expired-gt", "C15", "rpyc/lib/__init__.py",
      "        return self.finite and time.time() >= self.tmax", "        return self.finite and time.time() > self.tmax"),
